@@ -19,6 +19,7 @@ import Hv.Patch.LeafBytes
 import Hv.Patch.NumLemmas
 import Hv.Patch.SpecRefine
 import Hv.Patch.Target
+import Hv.Patch.PatchFields
 
 namespace Hv.C13
 open Hv.Patch
@@ -618,7 +619,169 @@ theorem not_refinesSpec_of_scalar (v : Bool) (n : NanRule) (fx : FixintRule) :
   injection hd2 with hd2
   simp at hd2
 
-/-! ## 9. decision over the extracted facts -/
+/-- RECORDED DEVIATION (`C13-spliced-value-opaque`), not covered by `Holds` (which speaks about
+    successes): a container value stored by an op is an opaque leaf for the later ops of the same
+    patch.  `SET x ← {"a":1}; SET x.a ← 2` on `{}`: the documented semantics give `{"x":{"a":2}}`, the
+    code rejects the patch with TYPE_MISMATCH — and accepts the same two ops sent as two patches. -/
+theorem witness_spliced_opaque :
+    Spec.refOps (.map []) [⟨.set, [0x78], [0x81, 0xa1, 0x61, 0x01]⟩, ⟨.set, [0x78, 0x2e, 0x61], [0x02]⟩]
+      = .ok (.map [([0x78], .map [([0x61], .leaf [0x02])])]) ∧
+    applyWithCondition good [0x80]
+      [⟨.set, [0x78], [0x81, 0xa1, 0x61, 0x01]⟩, ⟨.set, [0x78, 0x2e, 0x61], [0x02]⟩] none = .error .type ∧
+    applyWithCondition good [0x80] [⟨.set, [0x78], [0x81, 0xa1, 0x61, 0x01]⟩] none
+      = .ok [0x81, 0xa1, 0x78, 0x81, 0xa1, 0x61, 0x01] ∧
+    applyWithCondition good [0x81, 0xa1, 0x78, 0x81, 0xa1, 0x61, 0x01] [⟨.set, [0x78, 0x2e, 0x61], [0x02]⟩] none
+      = .ok [0x81, 0xa1, 0x78, 0x81, 0xa1, 0x61, 0x02] := by
+  refine ⟨by rfl, by decide, by decide, by decide⟩
+
+/-! ## 9. the PatchFields layer (swamp_patch.go) -/
+
+/-- the body `PatchFields` works on, and whether the call creates the treasure -/
+def pfInput (pc : PfCfg) (tr : Treasure) (seed : Bytes) : Option (Bytes × Bool) :=
+  match pfBody pc tr (seedOf pc seed) with
+  | .ok x => some x
+  | .error _ => none
+
+theorem pfBody_ok {pc : PfCfg} {tr : Treasure} {s body : Bytes} {ic : Bool}
+    (h : pfBody pc tr s = .ok (body, ic)) : (ic = true ↔ tr.content = .absent) := by
+  unfold pfBody at h
+  cases hcont : tr.content with
+  | absent => rw [hcont] at h; simp only at h; injection h with h; injection h with _ hi; simp [← hi]
+  | other => rw [hcont] at h; cases h
+  | bytes raw =>
+    rw [hcont] at h; simp only at h
+    cases raw with
+    | nil => cases h
+    | cons x r =>
+      cases r with
+      | nil => cases h
+      | cons y bd =>
+        simp only at h
+        by_cases hxy : x = pc.magic.b0 ∧ y = pc.magic.b1
+        · rw [if_pos hxy] at h; injection h with h; injection h with _ hi; simp [← hi]
+        · rw [if_neg hxy] at h; cases h
+
+theorem pfBody_err {pc : PfCfg} {tr : Treasure} {s : Bytes} {st : Nat}
+    (h : pfBody pc tr s = .error st) : st = 5 ∨ st = 7 := by
+  unfold pfBody at h
+  cases hcont : tr.content with
+  | absent => rw [hcont] at h; cases h
+  | other => rw [hcont] at h; simp only at h; injection h with h; exact Or.inl h.symm
+  | bytes raw =>
+    rw [hcont] at h; simp only at h
+    cases raw with
+    | nil => injection h with h; exact Or.inr h.symm
+    | cons x r =>
+      cases r with
+      | nil => injection h with h; exact Or.inr h.symm
+      | cons y bd =>
+        simp only at h
+        by_cases hxy : x = pc.magic.b0 ∧ y = pc.magic.b1
+        · rw [if_pos hxy] at h; cases h
+        · rw [if_neg hxy] at h; injection h with h; exact Or.inr h.symm
+
+theorem pfGate_ok {pc : PfCfg} {tr : Treasure} {create : Bool} {seed body : Bytes} {ic : Bool}
+    (h : pfGate pc tr create seed = .ok (body, ic)) :
+    pfInput pc tr seed = some (body, ic) ∧ (ic = true → create = true) ∧ (ic = true ↔ tr.content = .absent) := by
+  unfold pfGate at h
+  by_cases c1 : (!create && decide (tr.content = .absent)) = true
+  · rw [if_pos c1] at h; cases h
+  · rw [if_neg c1] at h
+    by_cases c2 : (create && !wf (seedOf pc seed)) = true
+    · rw [if_pos c2] at h; cases h
+    · rw [if_neg c2] at h
+      have hb := pfBody_ok h
+      refine ⟨by unfold pfInput; rw [h], fun hi => ?_, hb⟩
+      have habs := hb.mp hi
+      cases create with
+      | true => rfl
+      | false => simp [habs] at c1
+
+theorem pfGate_err {pc : PfCfg} {tr : Treasure} {create : Bool} {seed : Bytes} {s : Nat}
+    (h : pfGate pc tr create seed = .error s) : s = 2 ∨ s = 5 ∨ s = 7 := by
+  unfold pfGate at h
+  by_cases c1 : (!create && decide (tr.content = .absent)) = true
+  · rw [if_pos c1] at h; injection h with h; exact Or.inl h.symm
+  · rw [if_neg c1] at h
+    by_cases c2 : (create && !wf (seedOf pc seed)) = true
+    · rw [if_pos c2] at h; injection h with h; exact Or.inr (Or.inl h.symm)
+    · rw [if_neg c2] at h; exact Or.inr (pfBody_err h)
+
+/-- Reply status and stored body of `PatchFields` against the Spec.
+    * PATCHED / CREATED are reported exactly when the patch applied to the stored body behind the
+      two-byte prefix (or, for a missing key with CreateIfNotExist, to the seed / the empty map);
+      the treasure then holds prefix ++ body, `NewMsgpack` echoes that body, the body parses to
+      `Spec.refOps` of the parsed input, CREATED ⇔ the key was missing, and the meta fields are
+      stamped per `applyMeta` (Created* only on create, ClearExpiredAt over SetExpiredAt).
+    * every other status leaves the treasure exactly as it was and echoes nothing; a failing op or
+      condition reports the documented status of its error class. -/
+theorem patchFields_refines (pc : PfCfg) (hv : pc.cfg.validatesValues = true) (hc : pc.cfg.rmvalCanon = true)
+    (hm : pc.smap = documentedMap) (tr : Treasure) (ops : List Op) (cond : Option Condition)
+    (create : Bool) (seed : Bytes) (m : Option PatchMeta) :
+    ((patchFieldsT pc tr ops cond create seed m).status ≠ 0 ∧ (patchFieldsT pc tr ops cond create seed m).status ≠ 1 →
+      (patchFieldsT pc tr ops cond create seed m).treasure = tr ∧
+      (patchFieldsT pc tr ops cond create seed m).newBody = none) ∧
+    ((patchFieldsT pc tr ops cond create seed m).status = 0 ∨ (patchFieldsT pc tr ops cond create seed m).status = 1 →
+      ∃ body isCreate out t, pfInput pc tr seed = some (body, isCreate) ∧ parse body = .ok t ∧
+        (isCreate = true → create = true) ∧ (isCreate = true ↔ tr.content = .absent) ∧
+        ((patchFieldsT pc tr ops cond create seed m).status = 1 ↔ isCreate = true) ∧
+        applyWithCondition pc.cfg body ops cond = .ok out ∧
+        (patchFieldsT pc tr ops cond create seed m).newBody = some out ∧
+        (patchFieldsT pc tr ops cond create seed m).treasure =
+          applyMeta m isCreate { tr with content := .bytes (pc.magic.b0 :: pc.magic.b1 :: out) } ∧
+        ((∀ op ∈ ops, op.path.length < 2 ^ 32) → maxCh t + totalGrowth pc.cfg ops < 2 ^ 32 →
+          ∃ d, Spec.refOps t ops = .ok d ∧ parse out = .ok d)) ∧
+    (∀ body isCreate e, pfGate pc tr create seed = .ok (body, isCreate) →
+      applyWithCondition pc.cfg body ops cond = .error e →
+      (patchFieldsT pc tr ops cond create seed m).status = documentedMap.of e) := by
+  have hstat : ∀ e, pc.smap.of e ≠ 0 ∧ pc.smap.of e ≠ 1 := by
+    intro e; rw [hm]; cases e <;> decide
+  unfold patchFieldsT
+  cases hg : pfGate pc tr create seed with
+  | error s =>
+    simp only
+    have hs := pfGate_err hg
+    refine ⟨fun _ => by simp, fun h => ?_, fun _ _ _ h => by cases h⟩
+    rcases hs with rfl | rfl | rfl <;> simp at h
+  | ok bi =>
+    obtain ⟨body, ic⟩ := bi
+    simp only
+    cases ha : applyWithCondition pc.cfg body ops cond with
+    | error e =>
+      simp only
+      refine ⟨fun _ => by simp, fun h => ?_, fun b i e' h1 h2 => ?_⟩
+      · have := hstat e; rcases h with h | h
+        · exact absurd h this.1
+        · exact absurd h this.2
+      · injection h1 with h1; injection h1 with hb hi; subst hb hi
+        rw [ha] at h2; injection h2 with h2; subst h2
+        rw [hm]
+    | ok out =>
+      simp only
+      obtain ⟨hin, hcr, habs⟩ := pfGate_ok hg
+      have hparse : ∃ t, parse body = .ok t := by
+        unfold applyWithCondition at ha
+        cases hp : parse body with
+        | error e => rw [hp] at ha; cases ha
+        | ok t => exact ⟨t, rfl⟩
+      obtain ⟨t, ht⟩ := hparse
+      refine ⟨fun h => ?_, fun _ => ⟨body, ic, out, t, hin, ht, hcr, habs, ?_, ha, rfl, rfl, ?_⟩,
+        fun b i e' h1 h2 => ?_⟩
+      · cases ic <;> simp at h
+      · cases ic <;> simp
+      · intro hpaths hsize
+        exact apply_refines_spec hv hc ht hpaths hsize ha
+      · injection h1 with h1; injection h1 with hb hi; subst hb hi
+        rw [ha] at h2; cases h2
+
+/-- non-vacuity: create with a seed, INC, and meta -/
+example : patchFieldsT ⟨good, ⟨0xc7, 0x00⟩, documentedMap, [0x80]⟩ Treasure.empty
+      [⟨.inc, [0x78], [0x02]⟩] none true [0x81, 0xa1, 0x78, 0x01]
+      (some ⟨true, [0x62], true, [], some 1900000000000000000, false⟩)
+    = ⟨1, ⟨.bytes [0xc7, 0x00, 0x81, 0xa1, 0x78, 0xcf, 0, 0, 0, 0, 0, 0, 0, 3], 1900000000000000000, true, [0x62], true, []⟩,
+       some [0x81, 0xa1, 0x78, 0xcf, 0, 0, 0, 0, 0, 0, 0, 3]⟩ := by decide
+
+/-! ## 10. decision over the extracted facts -/
 
 inductive DupRule where
   | first | unknown
@@ -639,49 +802,99 @@ structure Facts where
   removeValCompare : RmvalRule
   magic0 : Option Nat
   magic1 : Option Nat
+  stCond : Option Nat
+  stType : Option Nat
+  stPath : Option Nat
+  stOp : Option Nat
+  stMsgpack : Option Nat
+  stNonstr : Option Nat
+  seedDefault : Option Nat
   deriving Repr
 
 def cfgOf (f : Facts) : Cfg :=
   { validatesValues := f.validatesValues.isYes, nan := f.nanCompare, fixint := f.incFixint,
     rmvalCanon := f.removeValCompare == .canonical }
 
+def smapOf (f : Facts) : StatusMap :=
+  ⟨f.stCond.getD 99, f.stType.getD 99, f.stPath.getD 99, f.stOp.getD 99, f.stMsgpack.getD 99, f.stNonstr.getD 99⟩
+
+def pfOf (f : Facts) : PfCfg :=
+  ⟨cfgOf f, ⟨UInt8.ofNat (f.magic0.getD 0), UInt8.ofNat (f.magic1.getD 0)⟩, smapOf f, [UInt8.ofNat (f.seedDefault.getD 0)]⟩
+
+/-- the PatchFields layer: documented status mapping, and reply / stored body = Spec -/
+def PFHolds (pc : PfCfg) : Prop :=
+  pc.smap = documentedMap ∧
+  ∀ tr ops cond create seed m,
+    ((patchFieldsT pc tr ops cond create seed m).status ≠ 0 ∧ (patchFieldsT pc tr ops cond create seed m).status ≠ 1 →
+      (patchFieldsT pc tr ops cond create seed m).treasure = tr ∧
+      (patchFieldsT pc tr ops cond create seed m).newBody = none) ∧
+    ((patchFieldsT pc tr ops cond create seed m).status = 0 ∨ (patchFieldsT pc tr ops cond create seed m).status = 1 →
+      ∃ body isCreate out t, pfInput pc tr seed = some (body, isCreate) ∧ parse body = .ok t ∧
+        (isCreate = true → create = true) ∧ (isCreate = true ↔ tr.content = .absent) ∧
+        ((patchFieldsT pc tr ops cond create seed m).status = 1 ↔ isCreate = true) ∧
+        applyWithCondition pc.cfg body ops cond = .ok out ∧
+        (patchFieldsT pc tr ops cond create seed m).newBody = some out ∧
+        (patchFieldsT pc tr ops cond create seed m).treasure =
+          applyMeta m isCreate { tr with content := .bytes (pc.magic.b0 :: pc.magic.b1 :: out) } ∧
+        ((∀ op ∈ ops, op.path.length < 2 ^ 32) → maxCh t + totalGrowth pc.cfg ops < 2 ^ 32 →
+          ∃ d, Spec.refOps t ops = .ok d ∧ parse out = .ok d)) ∧
+    (∀ body isCreate e, pfGate pc tr create seed = .ok (body, isCreate) →
+      applyWithCondition pc.cfg body ops cond = .error e →
+      (patchFieldsT pc tr ops cond create seed m).status = documentedMap.of e)
+
+/-- the property on the model: the patch layer and the PatchFields layer -/
+def Full (f : Facts) : Prop := Holds (cfgOf f) ∧ PFHolds (pfOf f)
+
 def hasUnknown (f : Facts) : Bool :=
   f.validatesValues == .unknown || f.nanCompare == .unknown || f.incFixint == .unknown ||
-  f.dupKey == .unknown || f.removeValCompare == .unknown || f.magic0.isNone || f.magic1.isNone
+  f.dupKey == .unknown || f.removeValCompare == .unknown || f.magic0.isNone || f.magic1.isNone ||
+  f.stCond.isNone || f.stType.isNone || f.stPath.isNone || f.stOp.isNone || f.stMsgpack.isNone ||
+  f.stNonstr.isNone || f.seedDefault.isNone
+
+def allGood (f : Facts) : Bool :=
+  f.validatesValues == .yes && f.nanCompare == .neverEqual && f.removeValCompare == .canonical &&
+  smapOf f == documentedMap
 
 def findings (f : Facts) : List String :=
   (if f.validatesValues == .no then ["C13-unvalidated-op-value"] else []) ++
   (if f.nanCompare == .equal then ["C13-nan-compares-equal"] else []) ++
-  (if f.removeValCompare == .scalarBytes then ["C13-removeval-skips-containers"] else [])
+  (if f.removeValCompare == .scalarBytes then ["C13-removeval-skips-containers"] else []) ++
+  (if smapOf f == documentedMap then [] else ["C13-status-mapping"])
 
 def classify (f : Facts) : Verdict :=
   if hasUnknown f then .undetermined "a msgpackpatch / swamp_patch.go pattern was not recognised"
-  else if findings f = [] then .holds
+  else if allGood f then .holds
   else .violated (findings f)
 
-theorem classify_sound (f : Facts) : (classify f).Sound (Holds (cfgOf f)) (HoldsExcept (cfgOf f)) := by
-  obtain ⟨vv, nc, fx, dk, rv, m0, m1⟩ := f
+theorem classify_sound (f : Facts) : (classify f).Sound (Full f) (HoldsExcept (cfgOf f)) := by
   unfold classify
   split
   · trivial
   · rename_i hu
-    cases vv <;> cases nc <;> cases rv <;> simp [hasUnknown] at hu <;>
-      simp only [findings, cfgOf, Tri.isYes] <;> simp only [Verdict.Sound]
-    · -- yes, equal, scalar
-      exact ⟨fun h => not_nanEqualNothing_of_equal true fx _ h.2.2.1, holds_except _⟩
-    · -- yes, equal, canonical
-      exact ⟨fun h => not_nanEqualNothing_of_equal true fx _ h.2.2.1, holds_except _⟩
-    · -- yes, neverEqual, scalar
-      exact ⟨fun h => not_refinesSpec_of_scalar true .neverEqual fx h.2.2.2, holds_except _⟩
-    · -- yes, neverEqual, canonical
-      exact holds_of_good rfl rfl rfl
-    · -- no, equal, scalar
-      exact ⟨fun h => not_successWf_of_unvalidated .equal fx _ h.2.1, holds_except _⟩
-    · -- no, equal, canonical
-      exact ⟨fun h => not_successWf_of_unvalidated .equal fx _ h.2.1, holds_except _⟩
-    · -- no, neverEqual, scalar
-      exact ⟨fun h => not_successWf_of_unvalidated .neverEqual fx _ h.2.1, holds_except _⟩
-    · -- no, neverEqual, canonical
-      exact ⟨fun h => not_successWf_of_unvalidated .neverEqual fx _ h.2.1, holds_except _⟩
+    split
+    · -- every fact has its repaired / documented value
+      rename_i hg
+      simp only [allGood, Bool.and_eq_true, beq_iff_eq] at hg
+      obtain ⟨⟨⟨h1, h2⟩, h3⟩, h4⟩ := hg
+      have hv : (cfgOf f).validatesValues = true := by simp [cfgOf, h1, Tri.isYes]
+      have hc : (cfgOf f).rmvalCanon = true := by simp [cfgOf, h3]
+      have hn : (cfgOf f).nan = .neverEqual := by simp [cfgOf, h2]
+      exact ⟨holds_of_good hv hn hc, h4, fun tr ops cond create seed m =>
+        patchFields_refines (pfOf f) hv hc h4 tr ops cond create seed m⟩
+    · rename_i hb
+      refine ⟨fun hfull => ?_, holds_except _⟩
+      obtain ⟨hH, hP⟩ := hfull
+      obtain ⟨vv, nc, fx, dk, rv, m0, m1, s1, s2, s3, s4, s5, s6, sd⟩ := f
+      by_cases hs : smapOf ⟨vv, nc, fx, dk, rv, m0, m1, s1, s2, s3, s4, s5, s6, sd⟩ = documentedMap
+      · cases vv <;> cases nc <;> cases rv <;> simp [hasUnknown] at hu
+        · exact not_nanEqualNothing_of_equal true fx _ hH.2.2.1
+        · exact not_nanEqualNothing_of_equal true fx _ hH.2.2.1
+        · exact not_refinesSpec_of_scalar true .neverEqual fx hH.2.2.2
+        · exact hb (by simp [allGood, hs])
+        · exact not_successWf_of_unvalidated .equal fx _ hH.2.1
+        · exact not_successWf_of_unvalidated .equal fx _ hH.2.1
+        · exact not_successWf_of_unvalidated .neverEqual fx _ hH.2.1
+        · exact not_successWf_of_unvalidated .neverEqual fx _ hH.2.1
+      · exact hs hP.1
 
 end Hv.C13
